@@ -16,8 +16,8 @@ ASSUMPTIONS = ['stub network = Conv2d(kernel (H,4), stride 4) with a blank bias:
                'float32 logits compared within 1e-4; sparse entries with posterior within +-20 % of 1e-4 are not judged',
                'for truncated lines (padded batch wider than 480*batch) only order-independence and the window start are required']
 N = {'quick': 160, 'thorough': 8000}
-CLASSES = ['mixed', 'mixed', 'equal_widths', 'tiny', 'long', 'page_ocr', 'empty_or_single', 'mixed']
-REQUIRED = ['lists', 'lines_checked', 'window_checked', 'dense_compared', 'sparse_compared', 'tight_compared', 'nologits_checked', 'permutations_checked', 'truncated_lines', 'page_ocr_lines', 'multi_batch_lists']
+CLASSES = ['mixed', 'mixed', 'equal_widths', 'tiny', 'long', 'page_ocr', 'empty_or_single', 'mixed', 'extreme_logits']
+REQUIRED = ['lists', 'lines_checked', 'window_checked', 'dense_compared', 'sparse_compared', 'tight_compared', 'nologits_checked', 'permutations_checked', 'truncated_lines', 'page_ocr_lines', 'multi_batch_lists', 'extreme_logit_lists']
 H = 16
 CHARS = list('abcdefgh ')
 
@@ -31,6 +31,9 @@ def setup(ctx):
     ctx.torch, ctx.pp, ctx.L = torch, pp, layout
     ctx.json, ctx.net = stubs.make_ocr_engine_dir(ctx.tmpdir + '/eng', CHARS, H=H, seed=3, blank_bias=2.0, wscale=1.0)
     ctx.engines = {bs: PytorchEngineLineOCR(ctx.json, torch.device('cpu'), batch_size=bs) for bs in range(1, 17)}
+    # a second stub whose logits span hundreds of units between frames (saturated white vs dark stretches): the sparse rule must still hold
+    ctx.json_hot, ctx.net_hot = stubs.make_ocr_engine_dir(ctx.tmpdir + '/eng_hot', CHARS, H=H, seed=5, blank_bias=2.0, wscale=25.0)
+    ctx.engines_hot = {bs: PytorchEngineLineOCR(ctx.json_hot, torch.device('cpu'), batch_size=bs) for bs in (1, 3, 8)}
     cfg = configparser.ConfigParser()
     cfg.read_dict({'OCR': {'OCR_JSON': ctx.json, 'USE_CPU': 'yes'}})
     ctx.page_ocr = pp.PageOCR(cfg['OCR'], torch.device('cpu'))
@@ -54,6 +57,8 @@ def gen(rng, i, ctx):
     else:
         ws = [int(rng.choice(pool + [int(rng.integers(1, 700))] * 6)) for _ in range(k)]
     mode = str(rng.choice(['sparse', 'sparse', 'dense', 'tight', 'nologits']))
+    if cls == 'extreme_logits':
+        mode, bs = 'sparse', int(rng.choice([1, 3, 8]))
     return {'cls': cls, 'widths': ws, 'batch_size': bs, 'mode': mode, 'pix_seed': int(rng.integers(0, 1 << 30)), 'perm_seed': int(rng.integers(0, 1 << 30))}
 
 
@@ -66,13 +71,16 @@ def make_lines(case):
     out = []
     for w in case['widths']:
         img = rng.integers(1, 256, size=(H, w, 3)).astype(np.uint8)
+        if case['cls'] == 'extreme_logits':
+            img[:, rng.random(w) < 0.3] = 255       # saturated stretches
+            img[:, rng.random(w) < 0.3] = 3         # nearly black stretches
         if rng.random() < 0.3:
             img[:, rng.random(w) < 0.5] = 0          # blank stretches inside the line
         out.append(img)
     return out
 
 
-def alone(ctx, img):
+def alone(ctx, img, net=None):
     """the network's output for this image alone, padded exactly as the engine pads a single line"""
     torch = ctx.torch
     w = img.shape[1]
@@ -80,7 +88,7 @@ def alone(ctx, img):
     x = np.zeros((1, H, W, 3), np.uint8)
     x[0, :, 32:32 + w] = img
     with torch.no_grad():
-        y = ctx.net(torch.from_numpy(x).float().permute(0, 3, 1, 2) / 255.0)[0].T.numpy()
+        y = (net or ctx.net)(torch.from_numpy(x).float().permute(0, 3, 1, 2) / 255.0)[0].T.numpy()
     return y
 
 
@@ -96,7 +104,9 @@ def collapse_text(lg, chars):
 
 def check(case, mon, ctx):
     bs, mode, ws = case['batch_size'], case['mode'], case['widths']
-    eng = ctx.engines[bs]
+    hot = case['cls'] == 'extreme_logits'
+    eng = ctx.engines_hot[bs] if hot else ctx.engines[bs]
+    net = ctx.net_hot if hot else ctx.net
     lines = make_lines(case)
     k = len(lines)
     kw = dict(sparse_logits=(mode == 'sparse'), tight_crop_logits=(mode == 'tight'), no_logits=(mode == 'nologits'))
@@ -114,7 +124,10 @@ def check(case, mon, ctx):
     widest_padded = (int(np.ceil(max(ws) / 32.0) * 32) + 64) if ws else 0
     if ws and sum(int(np.ceil(w / 32.0) * 32) for w in ws) > limit:
         mon.count('multi_batch_lists')
-    refs = [alone(ctx, img) for img in lines]
+    refs = [alone(ctx, img, net) for img in lines]
+    if hot:
+        mon.count('extreme_logit_lists')
+        mon.observe_max('logit_range_between_frames', max([float(r.max(axis=1).max() - r.max(axis=1).min()) for r in refs] or [0.0]))
     for i, (img, w) in enumerate(zip(lines, ws)):
         mon.count('lines_checked')
         ref = refs[i]
@@ -156,7 +169,8 @@ def check(case, mon, ctx):
             mon.count('sparse_compared')
             p = np.exp(r.astype(np.float64) - np.logaddexp.reduce(r.astype(np.float64), axis=1)[:, None])
             keep, drop = p > 1.2e-4, p < 0.8e-4
-            if win.size and (np.abs(win[keep] - r[keep]).max(initial=0) > 1e-4 or np.any(win[drop] != 0)):
+            tol = 1e-4 * max(1.0, float(np.abs(r).max(initial=0)))
+            if win.size and (np.abs(win[keep] - r[keep]).max(initial=0) > tol or np.any(win[drop] != 0)):
                 mon.violation('sparse-keeps-posteriors-above-1e-4-unchanged-and-nothing-else', dict(wit, kept_changed=float(np.abs(win[keep] - r[keep]).max(initial=0)), dropped_nonzero=int((win[drop] != 0).sum())))
     # order independence: reversed and shuffled lists give the same result for the same image
     if k >= 2:
